@@ -305,3 +305,10 @@ CLAIMS['C19']['note'] = (
     'tracers are assumed not to raise and _tracers to be a list (A-user); composition with the retry loop (every attempt '
     'traced): the stack shape retried(traced(raw _send)) is proved by lemma_send_stack_order (decorator expressions of the '
     'real class bodies), the per-layer behaviour by the wrapper contracts; their composition is stated, not machine-checked')
+CLAIMS['C07']['note'] += ('; bounded stand-ins (labelled bounded, not proof): client_server_loopback (58 cases: every notation of '
+                          'both clients wired to the real dispatcher vs. the direct call), id_generators; KNOWN FINDING: '
+                          'generators.uuid ids cannot be serialised (known_findings.json)')
+CLAIMS['C10']['note'] += ('; bounded stand-in async_batch_schedules: 96 cases - every release order of 4 suspended handlers x '
+                          'concurrent on/off x a failing element, on the real AsyncDispatcher (labelled bounded)')
+CLAIMS['C11']['note'] += ('; bounded stand-in sync_async_differential: the two real dispatchers on a 30-text corpus and the two '
+                          'real clients on 8 scripted exchanges incl. tracer events (labelled bounded)')
